@@ -132,7 +132,13 @@ pub fn intersects(s1: u64, l1: u64, s2: u64, l2: u64) -> bool {
 
 impl Model {
     fn from_ax(ax: &Axecutor) -> Model {
-        let o = observe(ax);
+        let (gpr, rip, xmm) = observe_regs(ax);
+        struct O {
+            gpr: [u64; 16],
+            rip: u64,
+            xmm: [u128; 16],
+        }
+        let o = O { gpr, rip, xmm };
         Model { gpr: o.gpr, rip: o.rip, xmm: o.xmm, areas: ax.verif_areas().into_iter().map(|a| MArea { start: a.start, len: a.length, prot: a.access, data: a.data }).collect() }
     }
 
@@ -257,7 +263,13 @@ impl<T> R<T> {
 impl<'a> Ex<'a> {
     /// compare registers with the model; on mismatch report under `prop` and adopt reality
     fn check_regs(&mut self, prop: &str, sig_prefix: &str, detail: &str) {
-        let o = observe(&self.ax);
+        struct O {
+            gpr: [u64; 16],
+            rip: u64,
+            xmm: [u128; 16],
+        }
+        let (gpr, rip, xmm) = observe_regs(&self.ax);
+        let o = O { gpr, rip, xmm };
         let mut what = None;
         for i in 0..16 {
             if o.gpr[i] != self.m.gpr[i] {
@@ -282,8 +294,23 @@ impl<'a> Ex<'a> {
 
     /// compare the area list (extents, permissions, contents) with the model; adopt reality on mismatch
     fn check_areas(&mut self, prop: &str, sig_prefix: &str, detail: &str) {
-        let actual: Vec<MArea> = self.ax.verif_areas().into_iter().map(|a| MArea { start: a.start, len: a.length, prot: a.access, data: a.data }).collect();
-        if actual != self.m.areas {
+        // fast path: compare extents and contents in place, clone only on a mismatch
+        let ext = self.ax.verif_area_extents();
+        let same = ext.len() == self.m.areas.len()
+            && ext.iter().zip(self.m.areas.iter()).all(|(e, a)| e.0 == a.start && e.1 == a.len && e.2 == a.prot && e.3 == a.data.len())
+            && {
+                // areas may share a start (zero-length duplicates): compare by position through the full view only then
+                let mut starts: Vec<u64> = ext.iter().map(|e| e.0).collect();
+                starts.sort();
+                starts.dedup();
+                if starts.len() != ext.len() {
+                    false
+                } else {
+                    self.m.areas.iter().all(|a| self.ax.verif_area_data(a.start).map(|d| d == &a.data[..]).unwrap_or(false))
+                }
+            };
+        let actual: Vec<MArea> = if same { Vec::new() } else { self.ax.verif_areas().into_iter().map(|a| MArea { start: a.start, len: a.length, prot: a.access, data: a.data }).collect() };
+        if !same && actual != self.m.areas {
             let cls = if actual.len() != self.m.areas.len() {
                 "area_list"
             } else {
@@ -608,9 +635,9 @@ impl<'a> Ex<'a> {
             }
         } else if ok {
             // unexpected success: adopt whatever happened
-            let o = observe(&self.ax);
-            self.m.gpr = o.gpr;
-            self.m.xmm = o.xmm;
+            let (gpr, _, xmm) = observe_regs(&self.ax);
+            self.m.gpr = gpr;
+            self.m.xmm = xmm;
         }
         if kind != "rmw" && self.ax.verif_rflags() != flags_before {
             self.ctx.dev("C08", format!("C08|{name}|flags_changed"), "a MOV changed the flags".into());
